@@ -916,6 +916,19 @@ def install_modules(I):
         return Builtin('wraps.deco', deco)
     module('functools', wraps=Builtin('wraps', wraps))
 
+    # itertools (concrete iterables)
+    def it_product(I_, a, k):
+        import itertools as _it
+        pools = [I_.iterate(x) for x in a] * int(k.get('repeat', 1))
+        return PyList([tuple(t) for t in _it.product(*pools)])
+
+    def it_chain(I_, a, k):
+        out = []
+        for x in a:
+            out.extend(I_.iterate(x))
+        return PyList(out)
+    module('itertools', product=Builtin('itertools.product', it_product), chain=Builtin('itertools.chain', it_chain))
+
     # enum
     def auto(I_, a, k):
         I_._enum_counter += 1
@@ -1022,7 +1035,8 @@ def install_modules(I):
     module('inspect', signature=Builtin('inspect.signature', inspect_signature),
            isfunction=Builtin('isfunction', lambda I_, a, k: isinstance(a[0], FuncObj)),
            getmembers=Builtin('getmembers', lambda I_, a, k: PyList(
-               [(n, v) for n, v in sorted(a[0].ns.items())]) if isinstance(a[0], ModuleObj) else PyList([])))
+               [(n, v) for n, v in sorted(a[0].ns.items())
+                if len(a) < 2 or a[1] is None or I_.truth(I_.call(a[1], [v], {}))]) if isinstance(a[0], ModuleObj) else PyList([])))
     module('importlib', import_module=Builtin('import_module', lambda I_, a, k: I_.load_module(a[0])))
     module('platform', python_version=Builtin('python_version', lambda I_, a, k: '3.12.1'))
     module('builtins', **{k_: v for k_, v in I.builtins.items()})
